@@ -121,3 +121,13 @@ void inst_control_composite(
   sm.compile_system_transfer();
   ps.compile_system_transfer();
 }
+
+// member templates: conversion between precisions / index types
+void inst_convert(LAFEM::Transfer<LAFEM::SparseMatrixCSR<double, Index>>& td, const LAFEM::Transfer<LAFEM::SparseMatrixCSR<float, unsigned int>>& tf,
+  Global::Transfer<LAFEM::Transfer<LAFEM::SparseMatrixCSR<double, Index>>, LAFEM::VectorMirror<double, Index>>& gd,
+  const Global::Transfer<LAFEM::Transfer<LAFEM::SparseMatrixCSR<float, unsigned int>>, LAFEM::VectorMirror<float, unsigned int>>& gf,
+  Global::Muxer<LAFEM::DenseVector<double, Index>, LAFEM::VectorMirror<double, Index>>* mux)
+{
+  td.convert(tf);
+  gd.convert(mux, gf);
+}
